@@ -270,6 +270,8 @@ class Ctx(object):
             'repo_root': REPO_ROOT,
         }
         n_states = self.states + len(self.state_keys)
+        if n_states == 0 and self.transitions:
+            n_states = 1        # the initial state from which the executed transitions started
         if self.level == 'model_checking':
             cov.update({'states': n_states, 'transitions': self.transitions,
                         'traces_validated_against_impl': self.traces,
@@ -310,6 +312,9 @@ class Ctx(object):
                   n_states, self.transitions, self.traces, len(self.outcomes), self.ambiguous,
                   self.exhaustive, wall, len(fresh), sum(c for f, c in known_hit.values())))
         sys.stdout.flush()
+        if reported:
+            # a violating run is a violation whatever the state of its (then irrelevant) coverage counters
+            return 1
         if not ok:
             print('HARNESS-ERROR property=%s: evidence file failed schema validation' % self.prop)
             return 2
